@@ -1395,6 +1395,8 @@ class Worker(actor.RallyActor):
                 self.drive()
             else:
                 self.logger.debug("Worker[%d] is executing tasks at index [%d].", self.worker_id, self.current_task_index)
+                # the previous tasks may have finished after the last periodic drain: ship their remaining samples before the sampler is replaced
+                self.send_samples()
                 self.sampler = Sampler(start_timestamp=time.perf_counter(), buffer_size=self.sample_queue_size)
                 executor = AsyncIoAdapter(
                     self.config,
